@@ -74,7 +74,17 @@ def t_fblock(sess, cfg, steps):
         t = real("t")
         rhs = s.fun(t, y.copy())
         Lt = Lf(t, Xf(t, None))
-        return dict(Fin=Fin, Fout=Fout, s=s, y=y, rhs=rhs, Lt=Lt, t0=t0, t1=t1)
+        # a second evaluation at another time (the solver evaluates the right-hand side many times per update):
+        # the velocity gradient must be looked up again at that time, wherever the particle is
+        tb_ = real("t_b")
+        y2 = quat.symvec("yz", 10 * N + 9)
+        tot2 = R(0)
+        for i in range(9 + 9 * N, 9 + 10 * N):
+            tot2 = tot2 + rmax(y2[i], 0)
+        sym.ctx().assume((tot2 > 0).z3())
+        rhs2 = s.fun(tb_, y2.copy())
+        Lt2 = Lf(tb_, Xf(tb_, None))
+        return dict(Fin=Fin, Fout=Fout, s=s, y=y, rhs=rhs, Lt=Lt, t0=t0, t1=t1, y2=y2, rhs2=rhs2, Lt2=Lt2)
 
     with mh.env(plan, log, derivatives=mh.deriv_stub_factory(dlog, N)):
         paths, info = sym.explore(fn, max_paths=64)
@@ -93,6 +103,8 @@ def t_fblock(sess, cfg, steps):
         Fy = v["y"][:9].reshape(3, 3)
         want = (v["Lt"] @ Fy).reshape(-1)
         sess.prove(f"{pt}: F block of the rhs = L(t, x(t)) @ F, row-major, operand order L.F", p.pc, all_eq(v["rhs"][:9], want))
+        want2 = (v["Lt2"] @ v["y2"][:9].reshape(3, 3)).reshape(-1)
+        sess.prove(f"{pt}: a later evaluation at another time t' uses L(t', x(t')) (no state carried between evaluations)", p.pc, all_eq(v["rhs2"][:9], want2))
         # the block mentions only L and F: no symbol of texture, parameters, phase fraction
         import re
 
